@@ -202,6 +202,8 @@ class Polyhedron(Shape3D):
             scale (float):
                 Scale factor.
         """
+        if not scale > 0:
+            raise ValueError("Shapes can only be rescaled by a factor greater than zero.")
         self._vertices *= scale
         self._equations[:, 3] *= scale
 
